@@ -244,6 +244,10 @@ class PredTerm(STerm):
     def sym_getattr(self, it, name):
         if name == 'params': return self.params
         if name == 'predicate': return PredSym(self.pred)
+        if name == 'constants': return frozenset(p for p in self.params if p.kind == 'const')
+        if name == 'variables': return frozenset(p for p in self.params if p.kind == 'var')
+        if name == 'predicates': return frozenset([PredSym(self.pred)])
+        if name == 'atomics': return frozenset()
         return super().sym_getattr(it, name)
     def sym_iter(self, it): return list(self.params)
     def sym_type(self, it):
@@ -251,6 +255,8 @@ class PredTerm(STerm):
         return Predicated
 class PredSym(SymVal):
     def __init__(self, p): self.p = p
+    def __eq__(self, o): return isinstance(o, PredSym) and o.p == self.p
+    def __hash__(self): return hash(('predsym', getattr(self.p, 'name', self.p)))
     def sym_call(self, it, args, kw):
         params = it.iterate(args[0]) if len(args) == 1 and not isinstance(args[0], Param) else list(args)
         return PredTerm(self.p, params)
